@@ -181,58 +181,18 @@ def run(prog: Program, res: Result) -> None:
         if isinstance(n, ast.Call) and isinstance(n.func, ast.Attribute) and n.func.attr == "append" \
                 and dotted(n.func.value) in ("self._errors", "self._error_diffs"):
             appends[dotted(n.func.value)[5:]].append(n)
+        elif isinstance(n, ast.AugAssign) and isinstance(n.op, ast.Add) and dotted(n.target) in ("self._errors", "self._error_diffs") \
+                and isinstance(n.value, (ast.List, ast.Tuple)) and len(n.value.elts) == 1:
+            appends[dotted(n.target)[5:]].append(n)          # `X += [v]` on a list is X.append(v)
     for fld, calls in appends.items():
-        okc = len(calls) == 1 and parent(parent(calls[0])) is ec.node
+        okc = len(calls) == 1 and (parent(parent(calls[0])) is ec.node or (isinstance(calls[0], ast.AugAssign) and parent(calls[0]) is ec.node))
         res.ob(okc, f"{M.relpath}: {fld}.append x{len(calls)}", f"append:{fld}")
         if not okc:
             bad("R4-one-rate-per-cycle", calls[0] if calls else ec.node,
                 f"__error_check__ appends to self.{fld} {len(calls)} times / conditionally: rates and cycles go out of step")
     if all(len(v) == 1 for v in appends.values()):
         e_app, d_app = appends["_errors"][0], appends["_error_diffs"][0]
-        cur = origin(ec.node, e_app.args[0]) if e_app.args else None
-        # abs(1 - avg) with avg = average_fitness(self._population)
-        okv = False
-        if isinstance(cur, ast.Call) and isinstance(cur.func, ast.Name) and cur.func.id == "abs" and len(cur.args) == 1 \
-                and isinstance(cur.args[0], ast.BinOp) and isinstance(cur.args[0].op, ast.Sub):
-            l, r = cur.args[0].left, cur.args[0].right
-            for a, b in ((l, r), (r, l)):
-                av = origin(ec.node, b)
-                if isinstance(a, ast.Constant) and a.value == 1 and isinstance(av, ast.Call) \
-                        and dotted(av.func) == "average_fitness" and len(av.args) == 1 and dotted(av.args[0]) == "self._population":
-                    okv = True
-        res.ob(okv, f"{M.relpath}:{e_app.lineno} rate = {norm(cur) if cur is not None else None}", "rate-value")
-        if not okv:
-            bad("R4-rate-value", e_app, f"the appended rate is `{norm(cur) if cur is not None else None}`, not abs(1 - average_fitness(self._population))")
-        # diff = current - previous, previous read before the append
-        dv = origin(ec.node, d_app.args[0]) if d_app.args else None
-        okd = False
-        if isinstance(dv, ast.BinOp) and isinstance(dv.op, ast.Sub) and isinstance(dv.left, ast.Name) and isinstance(e_app.args[0], ast.Name) \
-                and dv.left.id == e_app.args[0].id and isinstance(dv.right, ast.Name):
-            from ..flow import reaching_def
-            rd = reaching_def(ec.node, dv.right, dv.right.id)
-            if rd is not None and rd[2] == "assign" and rd[0].lineno < e_app.lineno:
-                pv = rd[1]
-                if isinstance(pv, ast.IfExp) and isinstance(pv.body, ast.Subscript) and dotted(pv.body.value) == "self._errors" \
-                        and norm(pv.body.slice) == "-1" and isinstance(pv.orelse, ast.Constant) and pv.orelse.value == 0 \
-                        and canon_expr(pv.test) in ("0 < len(self._errors)", "self._errors", "1 <= len(self._errors)", "len(self._errors) != 0"):
-                    okd = True
-        res.ob(okd, f"{M.relpath}:{d_app.lineno} diff = {norm(dv) if dv is not None else None}", "diff-value")
-        if not okd:
-            bad("R4-diff-value", d_app, "the appended difference is not (current rate - previous rate), previous = self._errors[-1] "
-                                        "read before the append (0 for the first cycle)")
-        # return (.., .., self.__should_stop__(<same current>))
-        rets = [n for n in own_nodes(ec) if isinstance(n, ast.Return)]
-        okr = False
-        if len(rets) == 1 and isinstance(rets[0].value, ast.Tuple) and len(rets[0].value.elts) == 3:
-            third = origin(ec.node, rets[0].value.elts[2])
-            if isinstance(third, ast.Call) and dotted(third.func) == "self.__should_stop__" and len(third.args) == 1 \
-                    and isinstance(third.args[0], ast.Name) and isinstance(e_app.args[0], ast.Name) and third.args[0].id == e_app.args[0].id \
-                    and rets[0].lineno > d_app.lineno and rets[0].lineno > e_app.lineno:
-                okr = True
-        res.ob(okr, f"{M.relpath}: __error_check__ returns __should_stop__(current rate) after both appends", "check-return")
-        if not okr:
-            bad("R4-stop-on-current-rate", rets[0] if rets else ec.node,
-                "__error_check__ does not return self.__should_stop__(<the rate just appended>) after recording it")
+        _error_check_values(prog, res, ec, e_app, d_app, bad, M)
     # average_fitness = mean of all fitness values
     af = prog.func(f"{PKG}.helpers.average_fitness")
     rv = [n for n in own_nodes(af) if isinstance(n, ast.Return)]
@@ -303,6 +263,88 @@ def run(prog: Program, res: Result) -> None:
 def _to_f(test):
     from ..frm import to_formula
     return to_formula(test, {}, {})
+
+
+def _error_check_values(prog, res, ec, e_app, d_app, bad, M) -> None:
+    """What __error_check__ records, by forward substitution (fwd.py): the appended rate, the appended difference and the
+    stop decision, each written over the function's inputs.  Verdicts: the specified form -> discharged; a positively
+    different value (rate of a part of the population, previous rate read after the append, reversed difference, the stop
+    decision taken on another value) -> violation; anything else -> undecided."""
+    from ..fwd import FwdUnknown, summarise
+    try:
+        sm = summarise(ec.node, {"self._errors", "self._error_diffs"})
+    except FwdUnknown as exc:
+        res.errors.append(f"{ec.loc()} __error_check__: {exc} - not a straight-line body (undecided)")
+        return
+    rates, diffs = sm["appended"]["self._errors"], sm["appended"]["self._error_diffs"]
+    if len(rates) != 1 or len(diffs) != 1:
+        return      # reported by R4-one-rate-per-cycle
+    R, D = rates[0], diffs[0]
+
+    def is_rate(e):
+        """abs(1 - average_fitness(X)) / abs(average_fitness(X) - 1) -> X"""
+        if isinstance(e, ast.Call) and isinstance(e.func, ast.Name) and e.func.id == "abs" and len(e.args) == 1 \
+                and isinstance(e.args[0], ast.BinOp) and isinstance(e.args[0].op, ast.Sub):
+            for a, b in ((e.args[0].left, e.args[0].right), (e.args[0].right, e.args[0].left)):
+                if isinstance(a, ast.Constant) and a.value == 1 and isinstance(b, ast.Call) and dotted(b.func) == "average_fitness" \
+                        and len(b.args) + len(b.keywords) == 1:
+                    return (b.args + [k.value for k in b.keywords])[0]
+        return None
+    X = is_rate(R)
+    if X is not None and dotted(X) == "self._population":
+        res.ob(True, f"{M.relpath}:{e_app.lineno} rate = {norm(R, 70)}", "rate-value")
+    elif X is not None:
+        bad("R4-rate-value", e_app, f"the appended rate is `{norm(R, 70)}`: the average fitness of `{norm(X, 40)}`, not of the whole population")
+    elif isinstance(R, ast.BinOp) and isinstance(R.op, ast.Sub) and any(
+            isinstance(z, ast.Call) and dotted(z.func) == "average_fitness" for z in (R.left, R.right)):
+        bad("R4-rate-value", e_app, f"the appended rate is `{norm(R, 70)}`: signed, not abs(1 - average fitness)")
+    else:
+        res.errors.append(f"{M.relpath}:{e_app.lineno} __error_check__: the appended rate `{norm(R, 70)}` is not recognised (undecided)")
+
+    wrong_first = []
+
+    def is_prev(e):
+        """the rate of the previous cycle, 0 for the first: E[-1] if <E non-empty> else 0 (a few spellings)"""
+        if isinstance(e, ast.IfExp):
+            t = canon_expr(e.test)
+            pos = t in ("0 < len(self._errors)", "self._errors", "1 <= len(self._errors)", "len(self._errors) != 0", "len(self._errors)")
+            neg = t in ("len(self._errors) == 0", "not self._errors", "len(self._errors) < 1", "not len(self._errors)")
+            last, zero = (e.body, e.orelse) if pos else (e.orelse, e.body) if neg else (None, None)
+            if last is not None and norm(last) == "self._errors[-1]" and not (isinstance(zero, ast.Constant) and zero.value == 0):
+                wrong_first.append(zero)         # the right shape, but the first cycle is not measured against 0
+                return False
+            return last is not None and norm(last) == "self._errors[-1]" and isinstance(zero, ast.Constant) and zero.value == 0
+        if norm(e) in ("(self._errors or [0])[-1]", "next(reversed(self._errors), 0)", "(self._errors[-1:] or [0])[0]"):
+            return True
+        return False
+    if isinstance(D, ast.BinOp) and isinstance(D.op, ast.Sub):
+        lr, rr = norm(D.left, 400) == norm(R, 400), norm(D.right, 400) == norm(R, 400)
+        if lr and is_prev(D.right):
+            res.ob(True, f"{M.relpath}:{d_app.lineno} diff = rate - previous rate (0 at the first cycle)", "diff-value")
+        elif lr and rr:
+            bad("R4-diff-value", d_app, "the appended difference is (current rate - current rate): the previous rate is read after "
+                                        "the current one was appended, so every difference is 0")
+        elif rr and is_prev(D.left):
+            bad("R4-diff-value", d_app, "the appended difference is (previous rate - current rate): the sign is reversed, a slow "
+                                        "improvement reads as a deterioration")
+        elif lr and wrong_first:
+            bad("R4-diff-value", d_app, f"the first cycle's difference is measured against `{norm(wrong_first[0], 50)}` instead of 0: it "
+                                        f"can be a small decrease, so early stopping can fire before `patience` cycles have run")
+        else:
+            res.errors.append(f"{M.relpath}:{d_app.lineno} __error_check__: the appended difference `{norm(D, 90)}` is not recognised (undecided)")
+    else:
+        res.errors.append(f"{M.relpath}:{d_app.lineno} __error_check__: the appended difference `{norm(D, 90)}` is not recognised (undecided)")
+    # the stop decision is taken on the rate just recorded
+    ret = sm["returns"]
+    stop = ret.elts[2] if isinstance(ret, ast.Tuple) and len(ret.elts) == 3 else None
+    if isinstance(stop, ast.Call) and dotted(stop.func) == "self.__should_stop__" and len(stop.args) + len(stop.keywords) == 1:
+        a = (stop.args + [k.value for k in stop.keywords])[0]
+        if norm(a, 400) == norm(R, 400):
+            res.ob(True, f"{M.relpath}: __error_check__ returns __should_stop__(the rate just recorded)", "check-return")
+        else:
+            bad("R4-stop-on-current-rate", stop, f"__should_stop__ is called with `{norm(a, 60)}`, not with the rate just appended")
+    else:
+        res.errors.append(f"{ec.loc()} __error_check__: the returned stop decision `{norm(stop, 60) if stop is not None else None}` is not recognised (undecided)")
 
 
 # ---------------------------------------------------------------------------------------------
